@@ -146,24 +146,7 @@ impl Property for C12 {
         }
     }
     fn strategy(&self, _tier: Tier) -> BoxedStrategy<ParseCase> {
-        // non-command characters that a byte- or truncation-based scanner would confuse with commands:
-        // same low byte (U+012B for '+'), same low 7 bits (U+00AB), command byte in the second byte
-        // (U+2B00), fullwidth forms (U+FF0B), plus arbitrary scalar values
-        fn comment_char() -> BoxedStrategy<char> {
-            let confusable = (0usize..8, 0u32..6, 1u32..0x10ff).prop_map(|(c, how, k)| {
-                let b = "+-<>.,[]".as_bytes()[c] as u32;
-                let cp = match how {
-                    0 => b + 0x100 * k,
-                    1 => b | 0x80,
-                    2 => (b << 8) | (k & 0xff),
-                    3 => 0xff00 + (b - 0x20),
-                    4 => b + 0x10000 * (1 + k % 16),
-                    _ => (b << 16 | k) & 0x10ffff,
-                };
-                char::from_u32(cp).filter(|ch| !"+-<>.,[]".contains(*ch)).unwrap_or('\u{12b}')
-            });
-            prop_oneof![6 => (12..ALPHABET.len()).prop_map(|i| ALPHABET[i]), 3 => confusable, 1 => any::<char>().prop_filter("command", |ch| !"+-<>.,[]".contains(*ch))].boxed()
-        }
+        use crate::bf::comment_char;
         let any_char = prop_oneof![5 => (0..12usize).prop_map(|i| ALPHABET[i]), 4 => comment_char()];
         let text = vec(any_char, 0..60).prop_map(|v| v.into_iter().collect::<String>());
         // balanced program with comments spliced in
